@@ -9,6 +9,7 @@ import (
 	"sync"
 
 	"github.com/thanos-community/promql-engine/execution/model"
+	"github.com/thanos-community/promql-engine/verifhook"
 
 	"github.com/prometheus/prometheus/model/labels"
 )
@@ -58,6 +59,7 @@ func (c *concurrencyOperator) Next(ctx context.Context) ([]model.StepVector, err
 	})
 
 	r, ok := <-c.buffer
+	verifhook.Point("concurrent.recv", 0)
 	if !ok {
 		return nil, nil
 	}
@@ -74,17 +76,20 @@ func (c *concurrencyOperator) pull(ctx context.Context) {
 	for {
 		select {
 		case <-ctx.Done():
+			verifhook.Point("concurrent.send", 0)
 			c.buffer <- maybeStepVector{err: ctx.Err()}
 			return
 		default:
 			r, err := c.next.Next(ctx)
 			if err != nil {
+				verifhook.Point("concurrent.send", 1)
 				c.buffer <- maybeStepVector{err: err}
 				return
 			}
 			if r == nil {
 				return
 			}
+			verifhook.Point("concurrent.send", 2)
 			c.buffer <- maybeStepVector{stepVector: r}
 		}
 	}
